@@ -60,7 +60,9 @@ var DenialKinds = []string{
 // step unverifiable (as opposed to padding or hints a validator may legitimately drop).
 func Invalidating(kind string) bool {
 	switch kind {
-	case "inject-auth", "set-ad", "ttl-inflate":
+	case "inject-auth", "inject-answer", "set-ad", "ttl-inflate":
+		// padding: a validator may drop records it has no use for and serve the
+		// authenticated rest; what it must never do is relay them (clause 1)
 		return false
 	}
 	return true
